@@ -17,6 +17,7 @@ package main
 import (
 	"fmt"
 	"math"
+	"sort"
 	"strings"
 	"unicode"
 	"unicode/utf8"
@@ -918,6 +919,62 @@ func minInt(a, b int) int {
 	return b
 }
 
+// caseAwkward: runes whose simple case mapping leaves the block, changes the UTF-8 length, has a title case of its own or
+// does not come back (U+00B5 → U+039C, ß, ÿ → Ÿ, dotted/dotless i, the digraphs Ǆ ǅ ǆ …, ẞ, Ohm, Kelvin, Ångström, Ⱥ Ⱦ, ſ, final sigma …).
+var caseAwkward = []rune{0xB5, 0xDF, 0xFF, 0x130, 0x131, 0x149, 0x178, 0x17F, 0x1C4, 0x1C5, 0x1C6, 0x1C7, 0x1C8, 0x1C9, 0x1CA, 0x1CB, 0x1CC,
+	0x1F0, 0x1F1, 0x1F2, 0x1F3, 0x23A, 0x23E, 0x23F, 0x240, 0x250, 0x251, 0x252, 0x26B, 0x27D, 0x345, 0x390, 0x3B0, 0x3C2, 0x3C3, 0x3A3, 0x3D0, 0x3D1,
+	0x3D5, 0x3D6, 0x3F0, 0x3F1, 0x3F4, 0x3F5, 0x587, 0x10D0, 0x1C90, 0x13A0, 0xAB70, 0x13F8, 0x1C80, 0x1C88, 0x1E9B, 0x1E9E, 0x1FBE, 0x1FB3, 0x1FBC,
+	0x2126, 0x212A, 0x212B, 0x2132, 0x214E, 0x2160, 0x2170, 0x24B6, 0x24D0, 0x2C65, 0x2C66, 0xA64A, 0xA64B, 0xFB00, 0xFB06, 0xFF21, 0xFF41,
+	0x10400, 0x10428, 0x1E900, 0x1E922, 0x6B, 0x4B, 0x69, 0x49, 0xE5, 0xC5, 0x3C9, 0x3A9, 0x3B8, 0x398, 0xFFFD}
+
+// caseSampleRunes is the quick tier's stratified sample of the code space, computed from the functions themselves (never from the
+// model's tables): every rune one of the case functions moves, the images, the neighbourhood of every point where the distance
+// to the image changes (the borders of the ranges a table would have), the ends of the planes and of the surrogate gap, the
+// awkward runes, and 2000 random others. Sorted, without duplicates, surrogates left out.
+func caseSampleRunes(g *RNG) []rune {
+	set := map[rune]bool{}
+	add := func(c rune) {
+		if c >= 0 && c <= unicode.MaxRune && !(0xD800 <= c && c <= 0xDFFF) {
+			set[c] = true
+		}
+	}
+	var pu, pl rune
+	for c := rune(0); c <= unicode.MaxRune; c++ {
+		u, l, t := unicode.ToUpper(c), unicode.ToLower(c), unicode.ToTitle(c)
+		if u != c || l != c || t != c {
+			add(c)
+			add(u)
+			add(l)
+			add(t)
+		}
+		if du, dl := u-c, l-c; c > 0 && (du != pu || dl != pl) {
+			for d := rune(-2); d <= 2; d++ {
+				add(c + d)
+			}
+		}
+		pu, pl = u-c, l-c
+	}
+	for _, c := range []rune{0, 0x7F, 0x80, 0x7FF, 0x800, 0xD7FF, 0xE000, 0xFFFC, 0xFFFD, 0xFFFE, 0xFFFF, 0x10000, 0x1FFFF, 0x20000, 0xE0000, 0x10FFFE, 0x10FFFF} {
+		add(c)
+	}
+	for _, c := range caseAwkward {
+		add(c)
+	}
+	for n := 0; n < 2000; {
+		c := rune(g.Intn(unicode.MaxRune + 1))
+		if !set[c] && !(0xD800 <= c && c <= 0xDFFF) {
+			add(c)
+			n++
+		}
+	}
+	out := make([]rune, 0, len(set))
+	for c := range set {
+		out = append(out, c)
+	}
+	sort.Slice(out, func(i, j int) bool { return out[i] < out[j] })
+	return out
+}
+
 func strfStream(r *Run) {
 	thorough := r.Tier == "thorough"
 	run := func(kind, line string) {
@@ -949,13 +1006,52 @@ func strfStream(r *Run) {
 		strf("defects", c[0].(string), c[1].(string), c[2:]...)
 	}
 
-	// 1. the modelled case table, rune by rune
-	for _, rg := range [][2]rune{{0, 0xFF}, {0x2000, 0x206F}, {0x1F300, 0x1F6FF}, {0xFFFD, 0xFFFD}, {0x100, 0x24F}, {0x370, 0x3FF}} {
-		for c := rg[0]; c <= rg[1]; c++ {
-			for _, name := range []string{"upcase", "downcase", "capitalize"} {
-				strf("case-table", name, string(c))
-				strf("case-table", name, "a"+string(c)+"B")
+	// 1. the case mapping, rune by rune (the model looks every rune up in the tables of translator T6). Thorough: every
+	// rune U+0000..U+10FFFF; quick: the stratified sample of caseSampleRunes. Each rune alone and inside a string, next to
+	// ASCII letters of both cases and next to invalid bytes; in the thorough tier also every block of 256 consecutive runes as one
+	// string with ASCII and invalid bytes between the runes.
+	caseCtx := func(kind string, c rune) {
+		cs := string(c)
+		for _, name := range []string{"upcase", "downcase", "capitalize"} {
+			strf(kind, name, cs)
+			strf(kind, name, "a"+cs+"B\xff"+cs+"\x80z")
+		}
+		strf(kind, "capitalize", cs+"a\xffB")
+		strf(kind, "capitalize", "\xff"+cs)
+	}
+	if thorough {
+		for c := rune(0); c <= unicode.MaxRune; c++ {
+			if 0xD800 <= c && c <= 0xDFFF {
+				continue
 			}
+			caseCtx("case-all-runes", c)
+		}
+		for base := rune(0); base <= unicode.MaxRune; base += 256 {
+			if 0xD800 <= base && base <= 0xDFFF {
+				continue
+			}
+			var sb strings.Builder
+			for c := base; c < base+256; c++ {
+				sb.WriteRune(c)
+				switch c % 4 {
+				case 1:
+					sb.WriteString("q")
+				case 2:
+					sb.WriteString("\xc3")
+				case 3:
+					sb.WriteString("Q\xa9")
+				}
+			}
+			for _, name := range []string{"upcase", "downcase", "capitalize"} {
+				strf("case-blocks", name, sb.String())
+			}
+		}
+	} else {
+		sample := caseSampleRunes(NewRNG(r.Seed, "strf-case"))
+		r.Stats.Notes["case-sample"] = fmt.Sprintf("%d runes: every rune unicode.ToUpper/ToLower/ToTitle moves and its images, 2 runes either side of "+
+			"every point where a delta changes, the ends of the planes and of the surrogate gap, the awkward runes, 2000 random others", len(sample))
+		for _, c := range sample {
+			caseCtx("case-sample", c)
 		}
 	}
 
